@@ -1160,6 +1160,16 @@ Proof.
   intros W HW hs required. apply (subs_multiset_lemma W HW hs required None). exact I.
 Qed.
 
+Lemma handlers_bypass_lemma : forall W,
+  (forall r r' required, subscribers r = subscribers r' ->
+     uncached_subscriptions W [r] required None = uncached_subscriptions W [r'] required None)
+  /\ ((forall x, NoDup (w_sro W x)) -> forall (hs : list (list sop)) required,
+      Permutation (uncached_subscriptions W (map (run_reg W) hs) required None)
+                  (flat_map (fun h => map snd (filter (fun e => req_applicable W required (fst (fst e))
+                                                              && match snd (fst e) with None => true | Some _ => false end)
+                                                     (run_led h))) hs)).
+Proof. intros W. split; [exact (handlers_lemma W)|exact (handlers_multiset_lemma W)]. Qed.
+
 (* ================================================================== the extendors invariant, stated *)
 Lemma extendors_inv_lemma : forall W, wf_world W -> forall (h : list sop),
   let r := run_reg W h in let L := run_led h in
